@@ -70,8 +70,8 @@ Print Assumptions C03_R_d2.
 (* (3) exactness of the second-order bookkeeping (_apply_order2) over programs: for any two commuting
    derivations dv1, dv2 of the scalar ring, if every instruction meets the first-order chain rule for
    (dv1,v1) and (dv2,v2) and the second-order chain rule for the pair ([DiffExact2.instr_ok12]: unique
-   order1 keys, non-shift derivative arrays, [coef2_ok], [cross_ok]; shifts without declarations, Wait,
-   PD without reset), then the state carried in sm.order2 under Pair(v1,v2) is dv1 (dv2 (state)) for every
+   order1 keys, non-shift derivative arrays, [coef2_ok], [cross_ok]; shifts without declarations; SPOILER, RESET,
+   Wait and PD(pd, reset) with a constant density, which act on the partials as well), then the state carried in sm.order2 under Pair(v1,v2) is dv1 (dv2 (state)) for every
    phase state k -- together with the two first-order invariants ([DiffExact2.inv12]) *)
 Theorem C03_order2_exact (S : ScalOps) (L : ScalLaws S) (dv1 dv2 : S -> S) :
   (forall x y, dv1 (x + y)%K = (dv1 x + dv1 y)%K) -> (forall x y, dv1 (x * y)%K = (dv1 x * y + x * dv1 y)%K) ->
@@ -207,12 +207,36 @@ Example C03_order2_point_nonvacuous :
 Proof. exact DiffPoint2Nonvac.nvp_witness. Qed.
 Print Assumptions C03_order2_point_nonvacuous.
 
+(* ... and with operators applied through Operator.__call__ between the differentiated ones (they act on the first-
+   and second-order partials too): mixing, operator, RESET, PD(2, reset=True), mixing, operator, shift, SPOILER,
+   PD(1/2, reset=False), Wait, mixing, operator -- the program meets pair_ok12, the executed mixed Hessian entry is
+   non-zero and is the e1e2 coefficient of the plain run over the double duals *)
+Example C03_order2_point_plain_nonvacuous :
+  Forall2 (DiffPoint2.pair_ok12 DiffPoint2Nonvac.D2p QIops (DiffPoint2Nonvac.q00 QIops) (DiffPoint2Nonvac.q10 QIops)
+             (DiffPoint2Nonvac.q01 QIops) (DiffPoint2Nonvac.q11 QIops) 0%nat 1%nat false)
+          DiffPoint2Nonvac.nvq_prog1 DiffPoint2Nonvac.nvq_prog2 /\
+  In (DPlain (@OSpoil QIops)) DiffPoint2Nonvac.nvq_prog2 /\ In (DPlain (@OReset QIops)) DiffPoint2Nonvac.nvq_prog2 /\
+  In (DPlain (@OWait QIops)) DiffPoint2Nonvac.nvq_prog2 /\
+  In (DPlain (@OPD QIops (qr 2 1) true)) DiffPoint2Nonvac.nvq_prog2 /\
+  In (DPlain (@OPD QIops (qr 1 2) false)) DiffPoint2Nonvac.nvq_prog2 /\
+  nth 1 (nth 0 (hessian (drun DiffPoint2Nonvac.nvq_prog2
+                           (dinit (@init QIops (DiffPoint2Nonvac.q00 QIops DiffPoint2Nonvac.nvp_pd)))) [0%nat; 1%nat]) [])
+      (@k0 QIops) <> @k0 QIops /\
+  nth 1 (nth 0 (hessian (drun DiffPoint2Nonvac.nvq_prog2
+                           (dinit (@init QIops (DiffPoint2Nonvac.q00 QIops DiffPoint2Nonvac.nvp_pd)))) [0%nat; 1%nat]) [])
+      (@k0 QIops)
+    = DiffPoint2Nonvac.q11 QIops (f0 DiffPoint2Nonvac.D2p (run DiffPoint2Nonvac.nvq_prog1
+                                                             (@init DiffPoint2Nonvac.D2p DiffPoint2Nonvac.nvp_pd))).
+Proof. exact DiffPoint2Nonvac.nvq_witness. Qed.
+Print Assumptions C03_order2_point_plain_nonvacuous.
+
 (* (5) COMPOSITION, analysis part.  K = double dual numbers over C ([Jet2.DDC]: a + ax e1 + ay e2 + axy e1e2,
    ev = a, dv1 = ax, dv2 = ay, dv12 = axy).  Forward-mode soundness of the PLAIN run: for a family of programs
    (x, y) |-> prog whose arrays have the jets given by the program over K ([Jet2.is_jet] with [Jet2.jet2]:
    value, d/dx at x0, d/dy at y0 for x near x0, and d/dx of the latter at x0 -- Coquelicot is_derive on real and
    imaginary part), the signal of the run over K is the jet of the family's signal; resp. [Jet2.jet1] for a
-   one-variable family (f' near x0, f'' at x0, stored as a, f', f', f'') *)
+   one-variable family (f' near x0, f'' at x0, stored as a, f', f', f'').  The families ([Jet2.fop]) contain ScalarOp /
+   MatrixOp with array families, shifts, and the constant operators SPOILER, RESET, PD(pd, reset), Wait. *)
 Theorem C03_signal_jet_mixed (x0 y0 : R) (fprog : list (Jet2.fop (R * R))) (jprog : list (op Jet2.DDC)) (pd : C) :
   Forall2 (Jet2.is_jet (R * R) Jet2.DDC (Jet2.jet2 x0 y0) Jet2.inj4) fprog jprog ->
   Jet2.jet2 x0 y0 (fun i => f0 Cops (Jet2.frun (R * R) fprog i (@init Cops pd)))
@@ -271,7 +295,8 @@ Theorem C03_real_sequence_hessian_diag (x0 : R) (v : var) (items : list RealSeq2
     f0 Cops (d_main ds) = sig x0.
 Proof. exact (RealSeq2.real_sequence_hessian_diag x0 v items pd). Qed.
 (* T in alpha or phi, Phi, E in tau, T1, T2 or g, P in tau or g, R in Re rT, rL or r0 (translated arrays and
-   derivative tables), constants, shifts; in Coquelicot's vocabulary: is_derive_n ... 2 *)
+   derivative tables), constants, shifts, and SPOILER, RESET, PD(pd, reset), Wait ([RealSeq2.R1Spoil], [R1Reset],
+   [R1PD], [R1Wait]: handed to the bookkeeping as DPlain); in Coquelicot's vocabulary: is_derive_n ... 2 *)
 Theorem C03_real_operators_hessian_diag (x0 : R) (v : var) (items : list RealSeq2.ritem1) (pd : C) :
   List.Forall (RealOps2.real_item1 x0) items ->
   let ds := drun (map (RealSeq2.dop1_of x0 v) items) (dinit (@init Cops pd)) in
@@ -306,7 +331,8 @@ Theorem C03_real_sequence_hessian_mixed (x0 y0 : R) (u w : var) (items : list Re
     (exists sy : R -> C, locally x0 (fun x => derC (fun y => sig x y) y0 (sy x)) /\ sy x0 = j2 /\ derC sy x0 h) /\
     f0 Cops (d_main ds) = sig x0 y0.
 Proof. exact (RealSeq2.real_sequence_hessian_mixed x0 y0 u w items pd). Qed.
-(* any operators of the first-order theorem driven by u resp. w, and T (alpha, phi), E (T2, tau), (T1, tau),
+(* any operators of the first-order theorem (SPOILER, RESET, PD(pd, reset), Wait included) driven by u resp. w,
+   and T (alpha, phi), E (T2, tau), (T1, tau),
    (g, tau), (T2, g), P (g, tau) with the two variables on two parameters of the same operator *)
 Theorem C03_real_operators_hessian_mixed (x0 y0 : R) (u w : var) (items : list RealSeq2.ritem2) (pd : C) :
   u <> w -> List.Forall (RealOps2.real_item2 x0 y0) items ->
@@ -340,3 +366,18 @@ Example C03_real_items_nonvacuous :
   List.Forall (RealOps2.real_item1 20) RealOps2.nv_items1 /\ List.Forall (RealOps2.real_item2 20 3) RealOps2.nv_items2.
 Proof. exact (conj RealOps2.nv_items1_ok RealOps2.nv_items2_ok). Qed.
 Print Assumptions C03_real_items_nonvacuous.
+
+(* ... and for sequences in which SPOILER, PD(reset=True), PD(reset=False), RESET and Wait stand between the
+   differentiated operators (sixteen operators each) *)
+Example C03_real_items_plain_nonvacuous :
+  List.Forall (RealOps2.real_item1 20) RealOps2.nv_items1_plain /\
+  List.Forall (RealOps2.real_item2 20 3) RealOps2.nv_items2_plain /\
+  In RealSeq2.R1Spoil RealOps2.nv_items1_plain /\ In RealSeq2.R1Reset RealOps2.nv_items1_plain /\
+  In RealSeq2.R1Wait RealOps2.nv_items1_plain /\
+  In (RealSeq2.R1PD (RtoC 2) true) RealOps2.nv_items1_plain /\ In (RealSeq2.R1PD (RtoC (1/2)) false) RealOps2.nv_items1_plain /\
+  In (RealSeq2.IX RealSeq.RSpoil) RealOps2.nv_items2_plain /\ In (RealSeq2.IX RealSeq.RReset) RealOps2.nv_items2_plain /\
+  In (RealSeq2.IY RealSeq.RWait) RealOps2.nv_items2_plain /\
+  In (RealSeq2.IY (RealSeq.RPD (RtoC 2) true)) RealOps2.nv_items2_plain /\
+  In (RealSeq2.IX (RealSeq.RPD (RtoC (1/2)) false)) RealOps2.nv_items2_plain.
+Proof. exact RealOps2.nv_items_plain_ok. Qed.
+Print Assumptions C03_real_items_plain_nonvacuous.
